@@ -47,7 +47,7 @@ def parse_overall(path):
 def make_traj(rng, d, N, frames, thorough=False, poskind=None, independent_frames=False):
     """orthogonal box, any origin; returns (Snapshots, info)"""
     SingleSnapshot, Snapshots = gc.records()
-    okind = str(rng.choice(["zero", "neg", "large", "asym", "centred", "zerosum"]))
+    okind = str(rng.choice(["zero", "neg", "large", "asym", "centred", "zerosum", "hoomd"]))
     vary_box = frames > 1 and rng.random() < 0.4
     poskind = poskind or str(rng.choice(["gas", "gas", "hardcore", "lattice"]))
     L0 = rng.uniform(3.0, 12.0, size=d)
@@ -64,7 +64,7 @@ def make_traj(rng, d, N, frames, thorough=False, poskind=None, independent_frame
             lo = -rng.uniform(0.1, 1.0, size=d) * L
         elif okind == "large":
             lo = rng.uniform(50, 300, size=d) * rng.choice([-1, 1], size=d)
-        elif okind == "centred":
+        elif okind in ("centred", "hoomd"):
             lo = -L / 2
         elif okind == "zerosum":
             # bounds sum to zero although the box is not centred on the origin: lo_k + hi_k cancel between axes
@@ -81,8 +81,13 @@ def make_traj(rng, d, N, frames, thorough=False, poskind=None, independent_frame
         lay = gc.auto_layout(N, np.ones(N, dtype=int), d)
         gc.LAYOUT_COUNTS[lay] = gc.LAYOUT_COUNTS.get(lay, 0) + 1
         pos = gc.lay_out(lo + f * L, lay, "positions")
+        bb = np.column_stack([lo, lo + L])
+        if okind == "hoomd":
+            # a snapshot as the library's own HOOMD reader builds it: box centred on the origin, `boxbounds` holds the EXTENT of the
+            # coordinates (min / max per axis), only `boxlength` carries the cell
+            bb = np.column_stack([np.asarray(pos).min(axis=0), np.asarray(pos).max(axis=0)])
         snaps.append(SingleSnapshot(timestep=100 * t, nparticle=N, particle_type=gc.lay_out(np.ones(N, dtype=int), lay, "types"), positions=pos,
-                                    boxlength=L.copy(), boxbounds=np.column_stack([lo, lo + L]), realbounds=None, hmatrix=np.diag(L)))
+                                    boxlength=L.copy(), boxbounds=bb, realbounds=None, hmatrix=np.diag(L)))
     return Snapshots(nsnapshots=frames, snapshots=snaps), {"d": d, "N": N, "origin": okind, "frames": frames,
                                                             "vary_box": bool(vary_box), "pos": poskind}
 
@@ -254,7 +259,7 @@ def files_case(ctx, rng, wd):
     snaps, inf = make_traj(rng, d, N, frames, ctx.thorough)
     N = inf["N"]
     info = lambda: _info(snaps, inf)  # noqa: E731
-    out = os.path.join(wd, "vor")
+    out = os.path.join(wd, str(rng.choice(["vor", "vor", "glass_T0.45", "traj.atom", "run.2.final"])))      # a prefix is a prefix, dots or not
     key = f"cal_neighbors/{d}D"
     ok, _ = ctx.call(key, cal_neighbors, snaps, out, data=info)
     ctx.case(f"files/{d}D/origin={inf['origin']}" + ("/varybox" if inf["vary_box"] else ""), snaps.snapshots[0].positions,
